@@ -760,6 +760,8 @@ class Inliner:
                 rest = self.guarded_rest(list(sts[i + 1:]), g)
                 if rest is not None:
                     self.guards_desugared = getattr(self, "guards_desugared", 0) + 1
+                    if g.get("keep_decl"):
+                        out.extend(self.tx_stmt(s, stack, fn))      # the object's members are read by its destructor's body
                     out.extend(self.tx_block(rest, stack, fn))
                     return out
             out.extend(self.tx_stmt(s, stack, fn))
@@ -769,8 +771,18 @@ class Inliner:
     def scope_guard(self, s):
         """`Guard g(lambda);` where ~Guard() does nothing but call the stored callable: (params, body) of the lambda, else None.
         The lambda's body is what runs when the enclosing block is left."""
-        if not isinstance(s, dict) or s.get("k") != "Decl" or len(s.get("vars", [])) != 1:
+        if not isinstance(s, dict) or s.get("k") != "Decl":
             return None
+        named = [v_ for v_ in s.get("vars", []) if v_.get("n") and "id" in v_]
+        if len(named) == 1 and len(s.get("vars", [])) > 1:
+            # `struct G {..} g{..};` declares the type and the variable in one statement
+            s = dict(s)
+            s["vars"] = named
+        if len(s.get("vars", [])) != 1:
+            return None
+        sg = self.struct_guard(s)
+        if sg is not None:
+            return sg
         init = s["vars"][0].get("init")
         init = unwrap(init) if init is not None else None
         if not (isinstance(init, dict) and init.get("k") == "Construct" and not init.get("copymove") and len(init.get("args", [])) == 1):
@@ -805,12 +817,39 @@ class Inliner:
             return None
         return lam
 
+    def struct_guard(self, s):
+        """A local object of a class defined inside a function (or in an unnamed namespace) that has a destructor with a body and
+        no constructor body: `struct G { X* p; ~G() { .. } } g{..};`.  Its destructor body, with `this` standing for the local,
+        is the guard's action."""
+        v = s["vars"][0]
+        t = (v.get("t") or "").replace("const ", "")
+        r = self.facts.records.get(t)
+        if r is None or v.get("ref") or r.get("bases"):
+            return None
+        dtors = [f for f in self.facts.functions.values() if f.get("cls") == t and f.get("dtor") and f.get("body") is not None]
+        if len(dtors) > 1:
+            # a type local to a function template: one destructor per instantiation, all with the same source
+            if len(set((f.get("file"), f.get("line")) for f in dtors)) != 1:
+                return None
+            dtors = dtors[:1]
+        if len(dtors) != 1 or not ir.stmts(dtors[0].get("body_raw", dtors[0]["body"])):
+            return None
+        d = dtors[0]
+        # only helper types that live inside a function or are file-local: a library class with a destructor is not a "guard"
+        if not (d.get("internal") or ")::" in (d.get("qn") or "") or "(anonymous" in (d.get("qn") or "")):
+            return None
+        ctors = [f for f in self.facts.functions.values() if f.get("cls") == t and f.get("ctor") and f.get("body") is not None]
+        if any(ir.stmts(f.get("body_raw", f["body"])) for f in ctors):
+            return None
+        recv = {"k": "Ref", "d": "local", "id": v.get("id"), "n": v.get("n"), "t": v.get("t"), "l": v.get("l")}
+        return {"k": "Lambda", "params": [], "body": d.get("body_raw", d["body"]), "recv": recv, "keep_decl": True}
+
     def guarded_rest(self, rest, lam):
         """The statements after the guard's declaration with the guard's action made explicit: at the end of the block and
         in front of every return inside it.  (What the guard does when an exception leaves the block is not represented.)
         None when the block is left in a way this rewriting does not cover."""
         def cleanup():
-            body_i, _ = self.instantiate([], lam["body"], None)
+            body_i, _ = self.instantiate([], lam["body"], lam.get("recv"))
             return ir.stmts(body_i)
         for x in rest:
             for n in walk(x):
@@ -843,6 +882,13 @@ class Inliner:
         new = ins(rest)
         if not (new and ir.always_leaves({"k": "Block", "s": new})):
             new = new + cleanup()
+        # the guard also acts when an exception leaves the block: that is a handler that runs the action and throws on
+        may_throw = any(x.get("k") in ("Call", "MCall", "OpCall", "Construct", "Throw", "New") for y in rest for x in walk(y))
+        if may_throw:
+            line = (rest[0] or {}).get("l") if rest and isinstance(rest[0], dict) else None
+            handler = {"t": "...", "l": line, "synthetic": True,
+                       "body": {"k": "Block", "l": line, "s": cleanup() + [{"k": "Throw", "l": line, "rethrow": True}]}}
+            new = [{"k": "Try", "l": line, "synthetic": True, "body": {"k": "Block", "l": line, "s": new}, "handlers": [handler]}]
         return new
 
     def _wrap(self, s, sts):
@@ -1940,6 +1986,8 @@ def scalar_replace_aggregates(body, facts):
     count = 0
     decls = []
     for n in walk(body):
+        if n.get("k") == "Decl" and len(n.get("vars", [])) == 2 and n["vars"][0].get("other") and n["vars"][1].get("n"):
+            n["vars"] = [n["vars"][1]]        # `struct T {..} x{..};`: the type's declaration is not a variable
         if n.get("k") == "Decl" and len(n.get("vars", [])) == 1:
             v = n["vars"][0]
             t = (v.get("t") or "").replace("const ", "")
@@ -2044,6 +2092,63 @@ def merge_decl_with_first_store(body):
                     break
                 if changed:
                     break
+    return count
+
+
+def resolve_optional_this(body):
+    """A pointer local that is `cond ? X : nullptr` and never reassigned (`G g{flag ? this : nullptr}` after N8): testing the
+    pointer is testing cond, and where it is dereferenced it is X (the program only dereferences it where it is non-null)."""
+    count = 0
+    for d in list(walk(body)):
+        if d.get("k") != "Decl" or len(d.get("vars", [])) != 1:
+            continue
+        v = d["vars"][0]
+        init = unwrap(v.get("init")) if v.get("init") is not None else None
+        if not (isinstance(init, dict) and init.get("k") == "Cond" and (v.get("t") or "").endswith("*") and "id" in v):
+            continue
+        a, b = ir.unwrap_all_casts(init.get("a")), ir.unwrap_all_casts(init.get("b"))
+        def is_null(x):
+            return isinstance(x, dict) and (x.get("null") or ir.const_value(x) == 0)
+        if is_null(b) and not is_null(a) and (a.get("k") == "This" or path(a) is not None):
+            X, c = init["a"], init["c"]
+            neg = False
+        elif is_null(a) and not is_null(b) and (b.get("k") == "This" or path(b) is not None):
+            X, c = init["b"], init["c"]
+            neg = True
+        else:
+            continue
+        uses = []
+        okk = True
+        for n, parents in ir.walk_with_parents(body):
+            if n.get("k") == "Ref" and n.get("d") == "local" and n.get("id") == v["id"]:
+                par = parents[-1] if parents else None
+                # skip implicit casts between the use and its context
+                chain = list(parents)
+                while chain and chain[-1].get("k") == "Cast":
+                    chain.pop()
+                par = chain[-1] if chain else None
+                if par is None:
+                    okk = False
+                elif par.get("k") == "If" and any(x is n for x in walk(par.get("cond"))) and unwrap(par.get("cond")) is n or \
+                        (par.get("k") == "If" and ir.unwrap_all_casts(par.get("cond")) is n):
+                    uses.append(("test", par, n))
+                elif par.get("k") == "Un" and par.get("op") == "!":
+                    uses.append(("not", par, n))
+                elif par.get("k") == "Member" or (par.get("k") == "MCall" and any(x is n for x in walk(par.get("recv")))):
+                    uses.append(("deref", par, n))
+                elif par.get("k") == "Bin" and par.get("op", "").endswith("=") and par["op"] not in ("==", "!=", "<=", ">=") and ir.unwrap(par.get("lhs")) is n:
+                    okk = False
+                else:
+                    okk = False
+        if not okk or not uses:
+            continue
+        cexpr = c if not neg else {"k": "Un", "op": "!", "e": c, "t": "bool", "l": d.get("l")}
+        for kind, par, n in uses:
+            repl = copy.deepcopy(cexpr if kind in ("test", "not") else X)
+            for key in list(n.keys()):
+                del n[key]
+            n.update(repl)
+        count += 1
     return count
 
 
@@ -2200,6 +2305,7 @@ def normalise(facts, do_inline=True, do_propagate=True):
                 substitute_named_constants(f["body"], facts)
                 stats["sroa"] = stats.get("sroa", 0) + scalar_replace_aggregates(f["body"], facts)
                 stats["decl_merged"] = stats.get("decl_merged", 0) + merge_decl_with_first_store(f["body"])
+                stats["optional_this"] = stats.get("optional_this", 0) + resolve_optional_this(f["body"])
                 stats["split_postinc"] = stats.get("split_postinc", 0) + split_postinc_deref(f["body"])
                 stats["memos_removed"] = stats.get("memos_removed", 0) + eliminate_local_memos(f["body"], facts, memo)
                 stats["propagated_uses"] += propagate(f["body"], facts, memo)
